@@ -8,6 +8,8 @@ from manifest_meta import META, NOT_APPLICABLE, NOTES
 ROOT = os.path.dirname(os.path.dirname(os.path.abspath(__file__)))
 checks = []
 for pid in sorted(PROPS):
+    if PROPS[pid].get("extension"):
+        continue
     m = META[pid]
     checks.append({
         "property_id": pid,
@@ -31,8 +33,8 @@ man = {
         "add_only": True,
     },
     "engines": [
-        {"name": "tlc", "path": "/opt/veriftools/tla/tla2tools.jar", "serves_properties": sorted(PROPS), "kind_free_text": "explicit-state model checker for the TLA+ specifications in spec/ (exhaustive runs, schedule generation, trace validation)"},
-        {"name": "cwv", "path": "harness/", "serves_properties": sorted(PROPS), "kind_free_text": "Rust conformance harness: runs the real contracts in cw-multi-test, records ndjson traces of projected abstract state"},
+        {"name": "tlc", "path": "/opt/veriftools/tla/tla2tools.jar", "serves_properties": sorted(p for p in PROPS if not PROPS[p].get("extension")), "kind_free_text": "explicit-state model checker for the TLA+ specifications in spec/ (exhaustive runs, schedule generation, trace validation)"},
+        {"name": "cwv", "path": "harness/", "serves_properties": sorted(p for p in PROPS if not PROPS[p].get("extension")), "kind_free_text": "Rust conformance harness: runs the real contracts in cw-multi-test, records ndjson traces of projected abstract state"},
     ],
     "checks": checks,
     "notes": NOTES,
